@@ -41,7 +41,7 @@ def hrun : HState → List HOp → HState := hrunWith fun _ _ s => reset s
     keys and buffers are kept when `parameters` is unchanged -/
 def resetKeep (old new : EnvInput) (s : EnvState) : EnvState :=
   if old.n = new.n then
-    setStage { s with haveX0 := false, haveResid := false, haveQ0 := false, haveX := false, xreg := none } 0
+    setStage { s with minx := if s.minxDef then none else s.minx, minxDef := false, haveX0 := false, haveResid := false, haveQ0 := false, haveX := false, xreg := none } 0
   else reset s
 
 end Gama.C04
